@@ -53,9 +53,31 @@ def _seed_variants(prop: str) -> list:
     return out
 
 
+def _twin_variants(prop: str) -> list:
+    """Every stored benign refactoring (/verif/twins/<id>/patch.diff: behaviour-preserving changes written by independent
+    sub-agents) is a twin for its own property and for every property listed under `also` in its meta.json: the patch is
+    applied to the scratch copy and no new finding and no analysis error may appear."""
+    import glob
+    import json
+
+    out = []
+    base = os.path.join(os.path.dirname(os.path.dirname(os.path.abspath(__file__))), "twins")
+    for meta in sorted(glob.glob(os.path.join(base, "*", "meta.json"))):
+        try:
+            with open(meta, encoding="utf-8") as fh:
+                m = json.load(fh)
+        except Exception:
+            continue
+        if m.get("property") != prop and prop not in m.get("also", []):
+            continue
+        out.append(V(f"stored twin {m['id']} (independent behaviour-preserving refactoring)", None, None, None, None, twin=True,
+                     patch=os.path.join(os.path.dirname(meta), "patch.diff")))
+    return out
+
+
 def _variants(prop: str) -> list[V]:
     mod = importlib.import_module("sa.selftest_variants")
-    return list(mod.VARIANTS.get(prop, [])) + _seed_variants(prop)
+    return list(mod.VARIANTS.get(prop, [])) + _seed_variants(prop) + _twin_variants(prop)
 
 
 def _findings(prop: str, root: str) -> dict[str, str]:
